@@ -18,6 +18,9 @@ class CH:
     group: str = ""                  # obligations with the same non-empty group may share a process
     kind: str = "ch"
     per_path_timeout: Optional[float] = None
+    native_points: int = 0           # additionally run the harness natively (no CrossHair) on this many concrete
+                                     # points of the symbolic box (corners + seeded picks): CrossHair models sets
+                                     # as insertion-ordered containers, so hash-order effects only show natively
 
 
 @dataclass
